@@ -1,0 +1,53 @@
+//go:build verif
+
+package buffer
+
+// VerifPoolInfo is a read-only snapshot of the StreamLexer's internal buffer pool, exposed only
+// under the verif build tag for runtime monitors.
+type VerifPoolInfo struct {
+	Blocks    int  // blocks in the pool
+	Active    int  // blocks marked active
+	ChainLen  int  // blocks reachable from tail following next
+	ChainOK   bool // chain from tail ends at head, visits active blocks only and has no cycle
+	CapSum    int  // sum of capacities of pooled blocks
+	BufCap    int  // capacity of the current buffer
+	BufLen    int
+	Start     int
+	Pos       int
+	PrevStart int
+	Free      int // bytes passed to Free and not yet applied
+	PoolPos   int
+	Head      int
+	Tail      int
+}
+
+// VerifPool returns a snapshot of the internal state.
+func (z *StreamLexer) VerifPool() VerifPoolInfo {
+	info := VerifPoolInfo{
+		Blocks: len(z.pool.pool), BufCap: cap(z.buf), BufLen: len(z.buf), Start: z.start, Pos: z.pos,
+		PrevStart: z.prevStart, Free: z.free, PoolPos: z.pool.pos, Head: z.pool.head, Tail: z.pool.tail,
+	}
+	for _, b := range z.pool.pool {
+		info.CapSum += cap(b.buf)
+		if b.active {
+			info.Active++
+		}
+	}
+	info.ChainOK = true
+	last := 0
+	for i := z.pool.tail; i != 0; i = z.pool.pool[i-1].next {
+		if i < 0 || i > len(z.pool.pool) || info.ChainLen > len(z.pool.pool) {
+			info.ChainOK = false
+			break
+		}
+		if !z.pool.pool[i-1].active {
+			info.ChainOK = false
+		}
+		info.ChainLen++
+		last = i
+	}
+	if last != z.pool.head {
+		info.ChainOK = false
+	}
+	return info
+}
